@@ -358,6 +358,14 @@ func runMuxer(kind string, table []triple, host, user string, closeIdx int) stri
 			}
 		}()
 	}
+	// registering a route that duplicates an existing triple (whatever the letter case of the host) is refused and
+	// changes nothing: the deliveries below still follow the table
+	for _, t := range table {
+		if dup, err := mux.Listen(ctxBG, &vhost.RouteConfig{Domain: strings.ToUpper(t.Host), RouteByHTTPUser: t.User}); err == nil {
+			dup.Close()
+			return "duplicate registration of " + t.String() + " was accepted"
+		}
+	}
 	if closeIdx >= 0 && closeIdx < len(lns) {
 		// one route is closed again: exactly that route disappears
 		lns[closeIdx].Close()
